@@ -9,4 +9,8 @@ def run(tier, seed):
     c.bounds = {'operands': 'all of i64 x i64 (no bound)', 'range_length': '<= 4 elements (quick) / 6 (thorough)'}
     c.outside = ['ranges longer than the stated length', 'integer literals: see the literal sub-check bounds']
     c.run_family('arith', arith.templates(tier), ('exit', 'stdout', 'stderr-empty', 'message', 'panic', 'hang'), arith.role)
+    if tier == 'thorough':
+        # E2: the compiled kernel under Kani/CBMC against an i128 oracle (independent of the std models of E1)
+        from . import kani_driver
+        kani_driver.run(c)
     return c.finish()
